@@ -66,7 +66,7 @@ def agree(case, impl, model):
             if any(abs(r - ratios[0]) > 1e-9 * abs(ratios[0]) for r in ratios):
                 return False
         return True
-    if head == "rand":
+    if head in ("rand", "m_rand"):
         sh = t[1][1:]
         want = "rand(" + "x".join(sh.split(",")) + ":1)" if sh else None
         return impl == want
@@ -139,4 +139,22 @@ def gen(seed, tier):
     out.append("geomspace z2 z1 z0 z1 z5 z1")
     for _ in range(200 if tier == "quick" else 2000):
         out.append(f"rand {lst(rand_shape(rng, 4, (0, 1, 2, 3, 5)))}")
+    # the constructor macros agree with the functions: the same cases again through array_zeros!, array_ones!,
+    # array_full!, array_eye!, array_identity!, array_arange!, array_rand!, array_flat!, array_single!
+    macro = []
+    for l in out:
+        head, _, rest = l.partition(" ")
+        name, _, ty = head.partition("@")
+        toks = rest.split(" ")
+        if name in ("zeros", "ones", "full", "rand") and toks[0].startswith("l") and 1 <= len([x for x in toks[0][1:].split(",") if x]) <= 4:
+            macro.append(f"m_{name}" + (f"@{ty}" if ty else "") + " " + rest)
+        elif name in ("identity", "arange"):
+            macro.append(f"m_{name}@{ty} {rest}")
+        elif name == "eye" and not (toks[1] == "n" and toks[2] != "n"):
+            macro.append(f"m_eye@{ty} {rest}")
+    for ty in ("i32", "i64", "f64", "u8"):
+        for k in range(1, 7):
+            macro.append(f"m_flat@{ty} {lst([rng.randint(0, 9) for _ in range(k)])}")
+        macro.append(f"m_single@{ty} z{rng.randint(0, 9)}")
+    out += macro
     return out
